@@ -301,7 +301,7 @@ class ObjOps(ToolOps):
                 return (left == right) if op == "Is" else (left != right)
         if op in ("Eq", "NotEq"):
             def const(v):
-                return isinstance(v, tuple) and v[:1] in (("item",), ("v",))
+                return v is None or (isinstance(v, tuple) and v[:1] in (("item",), ("v",)))  # (None is a plain value as well)
             if const(left) and const(right):
                 return (left == right) if op == "Eq" else (left != right)
             # a private marker made by ``object()`` equals nothing but itself (the model's keys and items are plain values)
@@ -655,11 +655,15 @@ def groupby_histories(ctx, rid: str, depth: int = 4, consumption: bool = False) 
     for n in range(0, 4):
         for pattern in _it.product("ab", repeat=n):
             scenarios.append((n, pattern, True))
+        # ... and with None as a key value (a legal key like any other: `key=record.get`)
+        for pattern in _it.product("an", repeat=n):
+            if "n" in pattern:
+                scenarios.append((n, pattern, True))
         if n:
             scenarios.append((n, None, False))  # default key: every item is its own key
     for n, pattern, with_key in scenarios:
         items = [("item", 0, i) for i in range(n)]
-        keymap = {items[i]: ("v", pattern[i]) for i in range(n)} if with_key else None
+        keymap = {items[i]: (None if pattern[i] == "n" else ("v", pattern[i])) for i in range(n)} if with_key else None
         ops = make_ops(ctx, gb_init, {0: n}, fns={"K": (lambda a, keymap=keymap: keymap[a[0]])} if with_key else {})
         state0: Dict[str, Any] = {"@heap": {}, "@lists": {}, "@trace": ()}
         gb = ops._alloc(state0, gb_cls.fq)
